@@ -29,8 +29,8 @@ PROP_ID = "C05"
 DESIGN_REF = "6/C05"
 
 TRUSTED = [
-    "CPython float(str) rounding and repr(float) are not modelled: the model's float grammar yields the exact decimal "
-    "written in the string, repr(float(s)) enters the model through CEnv.floatRepr (supplied per request by the harness)",
+    "CPython float(str) rounding to binary64 and repr(float) are hand models (Conv/FloatRepr.lean: exact rational arithmetic, half-even, "
+    "shortest-digit search) compared through conv.float_repr and conv.de/conv.ser; float(repr(x)) = x is proved for the model (float_repr_rt)",
     "CPython int()/Decimal()/binascii/base64/str.strip/str.split/re '\\s' are hand models (Conv/*.lean) compared through conv.de/conv.ser",
     "Unicode tables (isspace, isdigit, decimal, isalpha) come from the interpreter that runs xsdata, regenerated each run",
     "XSD 1.1 Part 2 lexical grammars (boolean, integer, decimal, double, hexBinary, base64Binary, QName) in Props/C05.lean "
@@ -40,7 +40,8 @@ TRUSTED = [
 ASSUMPTIONS = [
     "ints have fewer than sys.get_int_max_str_digits() (4300) digits: beyond that CPython's int<->str conversion itself raises ValueError",
     "Decimal exponents stay within the decimal context limits (|exp| < 10**6 in the checks); signaling NaN comparisons are not modelled",
-    "float(repr(x)) == x and repr is the shortest round-tripping form (CPython guarantee, David Gay's algorithm)",
+    "CPython's repr(float) is the shortest round-tripping digit string (David Gay's algorithm): the model searches 1..17 digits the same way, "
+    "that 17 digits always suffice is not proved (the model falls back to the exact expansion, which is proved to read back)",
     "acceptance of strings outside the XSD lexical space (1_000, 'infinity', Unicode digits) is not forbidden by the statement; it is modelled, not judged",
     "enum classes have pairwise unequal member values (Python would alias them otherwise)",
 ]
@@ -2092,17 +2093,22 @@ FINDINGS = {
 }
 
 LEVEL_TEXT = (
-    "Lean theorems over all values / all strings for the Bool, Int, Bytes (base16/base64, wrapper classes, missing formats), Decimal, Float "
-    "(exact binary64 rounding and shortest repr computed in the model; the repr always has the shape the canonical-spelling theorems need), "
-    "QName, Enum, the XmlDate/XmlTime/XmlDateTime/XmlDuration/XmlPeriod proxies, date/time/datetime with strptime/strftime formats "
-    "(%Y-%m-%d, %H:%M:%S, %Y-%m-%dT%H:%M:%S), sort_types / deserialize priority over every table type, type_converter, test(strict) soundness and "
-    "DataType.from_value against the lexical spaces (Props/C05.lean, C05Types.lean, C05Float.lean, C05Dates.lean), with the model tied to /repo by a "
-    "differential check of ConverterFactory.deserialize/serialize/test/sort_types/type_converter, DataType.from_value, float(str)/repr(float), "
-    "strptime/strftime and the namespaces helpers on hand-picked, bounded-exhaustive, random and malformed inputs."
+    "Lean theorems over all values / all strings for the Bool, Int, Bytes (base16/base64, wrapper classes, missing formats), Decimal "
+    "(every Decimal: finite with any exponent and sign of zero, INF, quiet/signaling NaN with payload), Float (exact binary64 rounding and "
+    "shortest repr computed in the model; float(repr(x)) = x for every double and deserialize(serialize(f)) = f for every float the converter "
+    "returns, with no hypothesis about CPython), QName, Enum, the XmlDate/XmlTime/XmlDateTime/XmlDuration/XmlPeriod proxies, "
+    "date/time/datetime with strptime/strftime formats (the standard ones incl. %f at full strength, years 1-9999; any format made of numeric "
+    "directives, %% and non-space literals; %Y-%m-%d %H:%M:%S), sort_types / deserialize priority over every table type, type_converter, "
+    "test(strict) soundness and DataType.from_value against the lexical spaces (Props/C05.lean, C05Types.lean, C05Float.lean, C05Dates.lean, "
+    "C05Decimal.lean), with the model tied to /repo by a differential check of ConverterFactory.deserialize/serialize/test/sort_types/"
+    "type_converter, DataType.from_value, float(str)/repr(float), strptime/strftime and the namespaces helpers on hand-picked, "
+    "bounded-exhaustive, random and malformed inputs."
 )
 LEVEL_NOTE = (
     "Trusted: Lean kernel; hand models of CPython int()/float() grammar and rounding/repr/Decimal()/format 'f'/binascii/strip/split/"
-    "_strptime (numeric directives %Y %m %d %H %M %S %f only) and glibc strftime; XSD lexical grammar transcriptions; the sampling "
-    "correspondence check (repr(float(s)) is compared on all floats with <= 3 significant digits x exponents -330..310 in the thorough tier). "
-    "Aware datetimes (%z), named-month/weekday directives and locale-dependent formats are outside the model."
+    "_strptime (numeric directives %Y %m %d %H %M %S %f only) and strftime (two-digit fields, %f, %Y as padded by DateTimeBase.serialize); "
+    "XSD lexical grammar transcriptions; the sampling correspondence check (repr(float(s)) is compared on all floats with <= 3 significant "
+    "digits x exponents -330..310 in the thorough tier). Not proved: that the model's repr is the shortest digit string (only that it reads "
+    "back); formats with white space in general. Aware datetimes (%z), named-month/weekday directives and locale-dependent formats are "
+    "outside the model."
 )
